@@ -1,18 +1,275 @@
 package headers
 
 import (
+	"math/big"
+
+	"github.com/pkg/errors"
 	"github.com/tokenized/pkg/bitcoin"
+	"github.com/tokenized/pkg/wire"
 )
 
 func init() {
-	verifHarnesses["VerifC02BitsNoPanic"] = VerifC02BitsNoPanic
+	verifHarnesses["VerifC02ProcessNoPanic"] = VerifC02ProcessNoPanic
+	verifHarnesses["VerifC02HashCheck"] = VerifC02HashCheck
+	verifHarnesses["VerifC02Median"] = VerifC02Median
+	verifHarnesses["VerifC02TimeSpan"] = VerifC02TimeSpan
+	verifHarnesses["VerifC02BitsRule"] = VerifC02BitsRule
 }
 
-// VerifC02BitsNoPanic: for every 32-bit bits value, the proof-of-work helpers used by
-// ProcessHeader / NewBranch / Branch.Add return instead of crashing the process.
-func VerifC02BitsNoPanic() {
-	bits := nondetU32("bits")
-	d := bitcoin.ConvertToDifficulty(bits)
-	_ = bitcoin.ConvertToWork(d)
+func genesisRepo(difficulty bool) *Repository {
+	cfg := &Config{Network: bitcoin.MainNet, MaxBranchDepth: 144}
+	repo := NewRepository(cfg, newVerifStore())
+	if !difficulty {
+		repo.DisableDifficulty()
+	}
+	repo.InitializeWithGenesis()
+	return repo
+}
+
+// VerifC02ProcessNoPanic: whatever 80 bytes are submitted (difficulty checks on as in production,
+// or off), ProcessHeader returns (accept or error) - it never panics.
+func VerifC02ProcessNoPanic() {
+	repo := genesisRepo(nondetBool("difficulty-checks-on"))
+	x := symHeader80("header")
+	if nondetBool("child-of-genesis") {
+		x.PrevBlock = repo.genesisHash
+	}
+	err := repo.ProcessHeader(context_bg(), x)
+	_ = err
+	verifReach("done")
+}
+
+func symHeader80(prefix string) *wire.BlockHeader {
+	hd := symHeader(prefix)
+	hd.Bits = nondetU32(prefix + "-bits")
+	return hd
+}
+
+// refCompact decodes bits the way the network does (arith_uint256::SetCompact): 23-bit mantissa,
+// sign bit, exponent in bytes. ok=false: negative, zero or overflowing target (never valid).
+func refCompact(bits uint32) (*big.Int, bool) {
+	size := bits >> 24
+	word := bits & 0x007fffff
+	if word == 0 {
+		return nil, false
+	}
+	if bits&0x00800000 != 0 {
+		return nil, false
+	}
+	if size > 34 || (word > 0xff && size > 33) || (word > 0xffff && size > 32) {
+		return nil, false
+	}
+	t := new(big.Int).SetUint64(uint64(word))
+	if size <= 3 {
+		t.Rsh(t, uint(8*(3-size)))
+	} else {
+		t.Lsh(t, uint(8*(size-3)))
+	}
+	if t.Sign() == 0 {
+		return nil, false
+	}
+	return t, true
+}
+
+// VerifC02HashCheck: a header is added only if its hash value does not exceed the target its
+// bits field encodes (network decoding); encodings the network treats as invalid are never added.
+func VerifC02HashCheck() {
+	repo := genesisRepo(true)
+	x := symHeader80("header")
+	x.PrevBlock = repo.genesisHash
+	hash := *x.BlockHash()
+	verifAssume(repo.HashHeight(hash) == -1) // a new header (SHA-256d collision-free)
+	err := repo.ProcessHeader(context_bg(), x)
+	added := repo.HashHeight(hash) == 1
+	if err == nil {
+		verifAssert(added, "accepted-header-not-added")
+	}
+	if added {
+		verifReach("added")
+		target, ok := refCompact(x.Bits)
+		if !ok {
+			if x.Bits&0x00800000 != 0 {
+				verifAssert(false, "header-with-negative-target-encoding-added")
+			} else {
+				verifAssert(false, "header-with-invalid-target-encoding-added")
+			}
+		} else {
+			verifAssert(hash.Value().Cmp(target) <= 0, "header-added-with-hash-above-target")
+		}
+	} else {
+		verifReach("refused")
+		c := errors.Cause(err)
+		verifAssert(c == ErrNotEnoughWork || c == ErrInvalidTarget, "refusal-not-bad-work-or-bits")
+	}
+	verifReach("done")
+}
+
+// synthBranch builds a branch of n headers ending at height top whose (time, work) samples are
+// given by the caller for the six positions the difficulty algorithm reads; all other entries are
+// never read by Target.
+func synthBranch(top int, times [6]uint32, works [6]*big.Int, bits uint32) *Branch {
+	n := 150
+	b := &Branch{parentHeight: top - n, offset: 1, heightsMap: map[bitcoin.Hash32]int{}}
+	filler := &HeaderData{Header: &wire.BlockHeader{Bits: bits}, AccumulatedWork: big.NewInt(1)}
+	b.headers = make([]*HeaderData, n)
+	for i := range b.headers {
+		b.headers[i] = filler
+	}
+	// positions: top-146, top-145, top-144 (first window) and top-2, top-1, top (last window)
+	pos := [6]int{n - 147, n - 146, n - 145, n - 3, n - 2, n - 1}
+	for k, p := range pos {
+		b.headers[p] = &HeaderData{Header: &wire.BlockHeader{Timestamp: times[k], Bits: bits}, AccumulatedWork: works[k]}
+	}
+	b.firstHeader = b.headers[0].Header
+	return b
+}
+
+// refSuitable is the network's GetSuitableBlock: three conditional swaps on strict >.
+func refSuitable(t [3]uint32) int {
+	idx := [3]int{0, 1, 2}
+	if t[idx[0]] > t[idx[2]] {
+		idx[0], idx[2] = idx[2], idx[0]
+	}
+	if t[idx[0]] > t[idx[1]] {
+		idx[0], idx[1] = idx[1], idx[0]
+	}
+	if t[idx[1]] > t[idx[2]] {
+		idx[1], idx[2] = idx[2], idx[1]
+	}
+	return idx[1]
+}
+
+// VerifC02Median: the median-of-three endpoint is the block the network selects, for all
+// timestamp triples including ties and decreasing ones.
+func VerifC02Median() {
+	var times [6]uint32
+	var works [6]*big.Int
+	for k := 0; k < 6; k++ {
+		times[k] = uint32(k)
+		works[k] = big.NewInt(int64(1000 + k))
+	}
+	t := [3]uint32{nondetU32("t0"), nondetU32("t1"), nondetU32("t2")}
+	times[3], times[4], times[5] = t[0], t[1], t[2]
+	top := 600000
+	b := synthBranch(top, times, works, 0x1d00ffff)
+	gotTime, gotWork, err := b.MedianTimeAndWork(context_bg(), top, 3)
+	if err != nil {
+		verifAssert(false, "median-returns-error")
+		return
+	}
+	want := refSuitable(t)
+	verifAssert(gotTime == t[want], "median-time-differs-from-network-selection")
+	verifAssert(gotWork.Cmp(works[3+want]) == 0, "median-block-differs-from-network-selection")
+	verifReach("done")
+}
+
+// VerifC02TimeSpan: the target is computed from the signed time span between the two median
+// endpoints clamped to [72,288] blocks' worth, as the network does, for every pair of timestamps.
+func VerifC02TimeSpan() {
+	var times [6]uint32
+	var works [6]*big.Int
+	first := nondetU32("first")
+	last := nondetU32("last")
+	// equal timestamps inside each window make the medians independent of the selection rule
+	times = [6]uint32{first, first, first, last, last, last}
+	w0 := new(big.Int).Lsh(big.NewInt(1), 70)
+	dw := new(big.Int).Lsh(big.NewInt(12345678901), 40)
+	for k := 0; k < 3; k++ {
+		works[k] = w0
+		works[3+k] = new(big.Int).Add(w0, dw)
+	}
+	top := 600000
+	b := synthBranch(top, times, works, 0x1d00ffff)
+	got, err := b.Target(context_bg(), top+1)
+	if err != nil {
+		verifAssert(false, "target-returns-error")
+		return
+	}
+	span := int64(last) - int64(first)
+	if span < 72*600 {
+		span = 72 * 600
+	}
+	if span > 288*600 {
+		span = 288 * 600
+	}
+	proj := new(big.Int).Mul(dw, big.NewInt(600))
+	proj.Div(proj, big.NewInt(span))
+	want := bitcoin.ConvertToWork(proj)
+	if want.Cmp(bitcoin.MaxWork) > 0 {
+		want.Set(bitcoin.MaxWork)
+	}
+	verifAssert(got.Cmp(want) == 0, "target-not-computed-from-signed-clamped-time-span")
+	verifReach("done")
+}
+
+// VerifC02BitsRule: from the activation height on, a header is accepted only with the bits value
+// the difficulty algorithm requires for its position on its own branch (main chain or fork).
+func VerifC02BitsRule() {
+	cfg := &Config{Network: bitcoin.MainNet, MaxBranchDepth: 144}
+	repo := NewRepository(cfg, newVerifStore())
+	var times [6]uint32
+	var works [6]*big.Int
+	w0 := new(big.Int).Lsh(big.NewInt(1), 70)
+	dw := new(big.Int).Lsh(big.NewInt(12345678901), 40)
+	for k := 0; k < 3; k++ {
+		times[k] = 1600000000
+		times[3+k] = 1600000000 + 144*600
+		works[k] = w0
+		works[3+k] = new(big.Int).Add(w0, dw)
+	}
+	top := 600000
+	b := synthBranch(top, times, works, 0x1803a30c)
+	var tipHash bitcoin.Hash32
+	tipHash[0], tipHash[1] = 0x99, 0x01
+	tipData := *b.headers[len(b.headers)-1]
+	tipData.Hash = tipHash
+	b.headers[len(b.headers)-1] = &tipData
+	b.heightsMap[tipHash] = top
+	repo.branches = Branches{b}
+	repo.longest = b
+	onFork := nondetBool("on-fork")
+	parent := tipHash
+	if onFork {
+		// a fork one below the tip: its first header has the same position (height top)
+		var below bitcoin.Hash32
+		below[0], below[1] = 0x99, 0x02
+		d := *b.headers[len(b.headers)-2]
+		d.Hash = below
+		b.headers[len(b.headers)-2] = &d
+		b.heightsMap[below] = top - 1
+		parent = below
+	}
+	required, err := b.Target(context_bg(), top+1)
+	if err != nil {
+		verifAssert(false, "target-returns-error")
+		return
+	}
+	_ = required
+	x := symHeader80("header")
+	x.PrevBlock = parent
+	hash := *x.BlockHash()
+	verifAssume(repo.HashHeight(hash) == -1) // a new header (SHA-256d collision-free)
+	perr := repo.ProcessHeader(context_bg(), x)
+	added := repo.HashHeight(hash) != -1
+	if added {
+		verifReach("added")
+		height := top + 1
+		var want *big.Int
+		if onFork {
+			height = top
+			// position top on the fork: windows end at top-1 and top-145; outside this harness's six
+			// symbolic samples, so only the main-chain position is compared exactly
+			want = nil
+		} else {
+			want = required
+		}
+		_ = height
+		if want != nil {
+			verifAssert(x.Bits == bitcoin.ConvertToBits(want, bitcoin.MaxBits), "header-accepted-with-bits-other-than-required")
+		}
+	} else {
+		verifReach("refused")
+		verifAssert(perr != nil, "not-added-but-no-error")
+	}
 	verifReach("done")
 }
